@@ -386,6 +386,9 @@ MN_PLANS = {
     # ... and while the main thread of skepticoin-send broadcasts a transaction (NetworkManager.broadcast_transaction)
     'broadcast-vs-valid-block-delivery': 'valid-sibling',
     'broadcast-vs-transaction-delivery': 'tx',
+    # ... and while the miner thread serves a work request (reads head + pool, assembles a candidate) and the block being
+    # delivered contains the pending transaction
+    'request-vs-block-including-pending-tx': 'valid-includes-pending',
 }
 WKEYS = [world.Key(0x6101 + i) for i in range(3)]
 
@@ -418,6 +421,22 @@ def mn_world():
                                                       '_get_msg_id', '__init__']))
     _W['mn'] = dict(W9=W9, trace=trace, win={})
     return _W['mn']
+
+
+def mn_world_coarse():
+    """the same scenarios with scheduling points at function entries only on the networking side (every source line of the
+    miner's handler, the block store and the disk interface): far fewer points, so one preemption more is affordable"""
+    if 'mnc' in _W:
+        return _W['mnc']
+    W = mn_world()
+    from skepticoin import blockstore, mining
+    from skepticoin.networking import disk_interface, local_peer, manager, remote_peer
+    trace = {mining.__file__: 'line', disk_interface.__file__: 'line',
+             blockstore.__file__: ('line', frozenset(['write_blocks_to_disk'])),
+             manager.__file__: 'call', local_peer.__file__: 'call',
+             remote_peer.__file__: ('call', W['trace'][remote_peer.__file__][1])}
+    _W['mnc'] = dict(trace=trace)
+    return _W['mnc']
 
 
 def mn_make(name, invalid=None):
@@ -477,7 +496,11 @@ def mn_make(name, invalid=None):
     B = None
     Bvalid = None
     T = None
-    if kind == 'valid-sibling':
+    if kind == 'valid-includes-pending':
+        n = uni.get(H.path + ('a',))          # (its transaction is the node's pending one)
+        B, Bvalid = n.block, True
+        data = w.D.frame(DataMessage(DATA_BLOCK, world.from_wire(B)))
+    elif kind == 'valid-sibling':
         n = uni.get(H.path + ('e',))
         B, Bvalid = n.block, True
         data = w.D.frame(DataMessage(DATA_BLOCK, world.from_wire(B)))
@@ -514,8 +537,12 @@ def mn_make(name, invalid=None):
                 w.net.escaped.append(('N', 'handle_selector_events', repr(e)[:200]))
                 break
     first = (lambda: node.nm.broadcast_transaction(S)) if S is not None else (lambda: mw.handle_scrypt_output_message(0, found[1]))
+    req = name.startswith('request-')
+    if req:
+        first = lambda: mw.handle_request_scrypt_input_message(0, found[0] + 1)      # noqa: E731
     return ([first, networking_thread],
-            dict(w=w, mw=mw, M=(None if S is not None else M), S=S, B=B, Bvalid=Bvalid, T=T, H=H, pool0=pool0, now=now))
+            dict(w=w, mw=mw, M=(None if (S is not None or req) else M), S=S, B=B, Bvalid=Bvalid, T=T, H=H, pool0=pool0, now=now,
+                 req=req))
 
 
 def mn_check(x, cx, bad):
@@ -523,6 +550,10 @@ def mn_check(x, cx, bad):
     node = w.node
     for i, o in enumerate(x.outcome):
         if o is not None and o[0] == 'exc':
+            if i == 0 and cx.get('req'):
+                bad.append(('C12:request-handler-raises', "the miner's work-request handler raises %r while the networking thread "
+                            "adopts a block containing the pending transaction" % (o[1],)))
+                continue
             if i == 0 and cx.get('S') is not None:
                 bad.append(('C10:broadcast-raises', "broadcast_transaction called from the main thread raises %r" % (o[1],)))
                 continue
@@ -552,6 +583,21 @@ def mn_check(x, cx, bad):
                 txs_got[k] = txs_got.get(k, 0) + 1
     snap = w.snapshot()
     cs = node.cm.coinstate
+    if cx.get('req'):
+        # ---- C12: the candidate handed out is assembled from ONE moment's head and pending transactions
+        try:
+            s_, h_, txs_ = cx['mw'].mining_args[0]
+            par = cx['H'] if s_.previous_block_hash == cx['H'].bid else None
+            if par is None and B is not None and s_.previous_block_hash == enc.blockid(B):
+                par = world.Node(B, cx['H'], path=cx['H'].path + ('a',))
+            if par is not None:
+                for t in txs_[1:]:
+                    tg = refmodel.validate_tx(t, par.utxo)
+                    if tg:
+                        bad.append(('C12:candidate-inconsistent', "the candidate handed to the miner builds on %s and contains a "
+                                    "transaction that is not valid there (%s)" % ('/'.join(par.path), ', '.join(sorted(tg)))))
+        except Exception as e:
+            bad.append(('C12:candidate-inconsistent', "no candidate recorded for the request: %r" % (e,)))
     if cx.get('S') is not None:
         # ---- C10: a transaction broadcast by this node reaches its peers (once each)
         sid = enc.txid(cx['S'])
@@ -684,12 +730,17 @@ def node_level_rejections(names):
     the rejected delivery must leave the node's chain state (deep fingerprint), pool and store rows exactly as they were.
     Returns (number of deliveries, violations [(key, what, candidate name, pre-state)])"""
     mn_world()
+    import skepticoin.networking.remote_peer as rp
     bad = []
     n = 0
+    real_skip = rp.IBD_VALIDATION_SKIP
     for nm in names:
-        for pre in ('start-up', 'own-block-mined'):
+        for pre in ('start-up', 'own-block-mined', 'start-up, bulk-validation interval = the block height'):
             bodies, cx = mn_make('found-vs-invalid-delivery', invalid=nm)
             w = cx['w']
+            # (scaled constant: "every 10,000th block is validated even during bulk download" - with the interval rebound to
+            # the candidate's own height the relayed block sits exactly on that boundary)
+            rp.IBD_VALIDATION_SKIP = cx['B'].height if pre.endswith('block height') and cx['B'].height > 0 else real_skip
             try:
                 if pre == 'own-block-mined':
                     bodies[0]()
@@ -700,7 +751,9 @@ def node_level_rejections(names):
                 after = (ledger.fingerprint(w.node.cm.coinstate), w.snapshot())
                 n += 1
                 if enc.blockid(cx['B']) in after[1]['state_ids']:
-                    continue           # accepted: CoinState-level acceptance is what the main search of C01 judges
+                    bad.append(('node-accepts-rule-breaking-block', "a peer relays the rule-breaking block %r to a node in state '%s': "
+                                "it enters the node's chain state" % (nm, pre), nm, pre))
+                    continue
                 diff = [k for k in ('state_ids', 'head', 'pool', 'rows') if before[1][k] != after[1][k]]
                 if before[0] != after[0] and not diff:
                     diff = ['ledger content']
@@ -709,6 +762,7 @@ def node_level_rejections(names):
                                 "'%s': it is rejected, but the node's %s changed (chain state had %d blocks, has %d)" % (
                                     nm, pre, ', '.join(diff), len(before[1]['state_ids']), len(after[1]['state_ids'])), nm, pre))
             finally:
+                rp.IBD_VALIDATION_SKIP = real_skip
                 w.close()
     return n, bad
 
@@ -728,6 +782,7 @@ FAMILIES = {
     'C13': (C13_PLANS, c13_world, c13_make, c13_check),
     'C07': (C07_PLANS, c07_world, c07_make, c07_check),
     'MN': (MN_PLANS, mn_world, mn_make, mn_check),
+    'MNc': (MN_PLANS, mn_world_coarse, mn_make, mn_check),
     'C17': (C17_PLANS, c17_world, c17_make, c17_check),
 }
 
